@@ -24,6 +24,23 @@ def replay(prop, tlc, seed, per_scn, backends="default", threads=12, dh=None, ex
     return res
 
 
+def _sum_hist(reps):
+    h = {}
+    for r in reps:
+        for k, v in r.get("cause_histogram", {}).items():
+            h[k] = h.get(k, 0) + v
+    return h
+
+
+def require_causes(res, needed):
+    """Vacuity guard: the enumeration must really contain the failure causes the property is about."""
+    have = res["coverage"].get("failing_calls_by_cause", {})
+    missing = [c for c in needed if have.get(c, 0) == 0]
+    if missing:
+        raise ToolError(f"vacuous enumeration: no scenario with cause(s) {missing}")
+    return res
+
+
 def merge(level, tlcs, reps, rule, assumptions, extra_cov=None):
     viol = []
     for r in reps:
@@ -39,6 +56,7 @@ def merge(level, tlcs, reps, rule, assumptions, extra_cov=None):
         evaluations=sum(r["instances"] for r in reps),
         distinct_nontrivial=sum(r["distinct_cases"] for r in reps),
         violations_total=sum(r.get("violations_total", 0) for r in reps),
+        failing_calls_by_cause=_sum_hist(reps),
         rule=rule,
         tlc_runs=[dict(config=t["name"], states=t["distinct"], transitions=t["states"], wall_s=t["wall_s"]) for t in tlcs],
         anchor="spec transcripts reproduce 472/472 Cacophony vectors (checked before this run)",
@@ -254,6 +272,9 @@ def c07(tier, seed):
                  "every field altered, truncation at/inside every field, extension by 1/16/65535 bytes, stale message, "
                  "undersized payload buffer - then the genuine call; expected: documented error kind, unchanged "
                  "observables, and a continuation byte-identical to the failure-free transcript", ASSUME_SYMBOLIC)
+    require_causes(res, ["W_BUF_E", "W_BUF_S", "W_BUF_PAYLOAD", "W_MAXLEN", "W_TURN", "W_NO_PSK", "R_TURN", "R_SHORT_E", "R_SHORT_S",
+                         "R_SHORT_PAYLOAD", "R_AUTH_S", "R_AUTH_PAYLOAD", "R_OUTBUF", "R_TOO_LONG", "T_W_BUF", "T_W_MAXLEN",
+                         "T_R_AUTH", "T_R_SHORT", "T_R_OUTBUF", "T_ONEWAY"])
     ds = [d2("C07", "faulty", 400 if tier == "quick" else 6000, seed), d2_repo_tests("C07")]
     return add_d2(res, [x for x in ds if x])
 
